@@ -15,6 +15,7 @@ import (
 	"github.com/brewlin/net-protocol/protocol/network/arp"
 	"github.com/brewlin/net-protocol/protocol/network/ipv4"
 	"github.com/brewlin/net-protocol/protocol/network/ipv6"
+	"github.com/brewlin/net-protocol/protocol/transport/ping"
 	"github.com/brewlin/net-protocol/protocol/transport/tcp"
 	"github.com/brewlin/net-protocol/protocol/transport/udp"
 	"github.com/brewlin/net-protocol/stack"
@@ -471,6 +472,64 @@ func (w *addrWorld) udpSend(s Step) {
 	}
 }
 
+// pingSend: an application sends an echo request through a ping socket (the stack fills in the identifier
+// and the checksum): the frame is addressed like any other packet and must verify like any other.
+func (w *addrWorld) pingSend(s Step) {
+	dst := adDst[s.A%len(adDst)]
+	v6 := len(dst) == 16
+	proto := tcpip.TransportProtocolNumber(ping.ProtocolNumber4)
+	if v6 {
+		proto = ping.ProtocolNumber6
+	}
+	ep, err := w.s.NewEndpoint(proto, w.netOf(dst), &waiter.Queue{})
+	if err != nil {
+		w.Probes["ping_endpoint_unavailable"]++
+		return
+	}
+	defer ep.Close()
+	w.nop++
+	data := adPayload(w.seed, w.nop, int(s.D)+4)
+	msg := make([]byte, 8+len(data))
+	msg[0] = 8
+	if v6 {
+		msg[0] = 128
+	}
+	msg[6], msg[7] = byte(s.C>>8), byte(s.C)
+	copy(msg[8:], data)
+	w.begin()
+	r, routed := w.choose(dst, "")
+	var e *tcpip.Error
+	for try := 0; try < 4; try++ {
+		var ch <-chan struct{}
+		_, ch, e = ep.Write(tcpip.SlicePayload(append([]byte(nil), msg...)), tcpip.WriteOptions{To: &tcpip.FullAddress{Addr: dst}})
+		w.service()
+		if e != tcpip.ErrWouldBlock || ch == nil {
+			break
+		}
+	}
+	w.Probes["echo_requests_sent_by_ping_sockets"]++
+	var mine []*Decoded
+	for _, d := range w.seen {
+		if d.ICMP != nil && bytes.Equal(d.ICMP.Data, data) {
+			mine = append(mine, d)
+		}
+	}
+	switch {
+	case !routed || e != nil:
+		if len(mine) > 0 {
+			w.Fail("wrong-addressing", "", "echo request to % x: no route or failed write (%v), and yet it was put on the wire", []byte(dst), e)
+		}
+	case len(mine) != 1:
+		w.Fail("wrong-addressing", "", "echo request to % x written successfully, %d frames carry it", []byte(dst), len(mine))
+	default:
+		w.checkOut("echo request", mine[0], r, dst, "")
+		if mine[0].ICMP.Seq != uint16(s.C) {
+			w.Fail("wrong-addressing", "", "echo request with sequence number %d left with %d", uint16(s.C), mine[0].ICMP.Seq)
+		}
+		w.Probes["ping_frames_checked"]++
+	}
+}
+
 // inbound: a neighbour (on-link, or a far host whose packets arrive through the
 // gateway) sends something the stack answers; the answer mirrors the addresses.
 func (w *addrWorld) inbound(s Step) {
@@ -674,6 +733,8 @@ func (w *addrWorld) apply(s Step) {
 		w.udpSend(s)
 	case "reconn":
 		w.reconnSend(s)
+	case "ping":
+		w.pingSend(s)
 	case "in":
 		w.inbound(s)
 	case "connect":
@@ -686,7 +747,9 @@ func (w *addrWorld) apply(s Step) {
 
 func (w *addrWorld) next() Step {
 	r := w.Rng
-	switch r.Pick(10, 6, 3, 2, 3) {
+	switch r.Pick(10, 6, 3, 2, 3, 2) {
+	case 5:
+		return Step{Op: "ping", A: r.Intn(len(adDst)), C: r.Intn(65536), D: int64([]int{0, 1, 2, 3, 8, 55, 56, 57, 1000}[r.Intn(9)])}
 	case 4:
 		return Step{Op: "reconn", A: r.Intn(7), D: int64(r.Intn(600))}
 	case 0:
@@ -710,7 +773,7 @@ func (scAddr) Run(t *testing.T, prop string, seed uint64, cfgRaw json.RawMessage
 		w.TraceOn = trace
 		rand.VerifSeed(sim.Mix(seed ^ 0x7a5d))
 		ipv4.VerifReset()
-		s := stack.New([]string{ipv4.ProtocolName, ipv6.ProtocolName, arp.ProtocolName}, []string{tcp.ProtocolName, udp.ProtocolName}, stack.Options{Clock: simClock{}})
+		s := stack.New([]string{ipv4.ProtocolName, ipv6.ProtocolName, arp.ProtocolName}, []string{tcp.ProtocolName, udp.ProtocolName, ping.ProtocolName4, ping.ProtocolName6}, stack.Options{Clock: simClock{}})
 		w.s = s
 		w.stacks = append(w.stacks, s)
 		for nic := 1; nic <= 3; nic++ {
